@@ -3,6 +3,8 @@ package fsx
 import (
 	"fmt"
 	"math/rand"
+	"os"
+	"path/filepath"
 	"strings"
 
 	"github.com/emersion/go-webdav/verifharness/fw"
@@ -78,10 +80,20 @@ func Trees() []davtree.Tree {
 
 var UniversePaths = []string{"/", "/a", "/b", "/a/a", "/a/b", "/b/a", "/b/b", "/a/b/a"}
 
-// Requests enumerates the single-step requests applied to every tree.
+// Requests enumerates the single-step requests of the universe.
 func Requests(full bool) []davtree.Req {
-	var l []davtree.Req
+	base, dealt := requestLists(full)
+	return append(base, dealt...)
+}
+
+// requestLists gives the requests applied to every tree (base) and those the
+// quick tier deals out over the trees, a third to each (dealt): the families
+// added after the original product - request bodies of PROPFIND, collections
+// addressed with a trailing slash, header values outside the grammars.
+func requestLists(full bool) (base, dealt []davtree.Req) {
+	var l, l2 []davtree.Req
 	add := func(r davtree.Req) { l = append(l, r) }
+	add2 := func(r davtree.Req) { l2 = append(l2, r) }
 	for _, p := range UniversePaths {
 		add(davtree.Req{Method: "OPTIONS", Path: p})
 		add(davtree.Req{Method: "GET", Path: p})
@@ -98,6 +110,20 @@ func Requests(full bool) []davtree.Req {
 				add(davtree.Req{Method: "PROPFIND", Path: p, Depth: d, PropBody: b})
 			}
 		}
+		// the request-body dimension of PROPFIND: the XML forms of allprop and
+		// propname, and <prop> requests over live, foreign and near-miss names
+		add2(davtree.Req{Method: "PROPFIND", Path: p, Depth: "1", PropBody: "allprop"})
+		add2(davtree.Req{Method: "PROPFIND", Path: p, Depth: "1", PropBody: "propname"})
+		for i, set := range PropSetNames() {
+			add2(davtree.Req{Method: "PROPFIND", Path: p, Depth: []string{"1", "0", "infinity", ""}[i%4], PropBody: "names:" + set})
+			if full {
+				add2(davtree.Req{Method: "PROPFIND", Path: p, Depth: []string{"0", "1", "1", "0"}[i%4], PropBody: "names:" + set})
+			}
+		}
+		// other spellings outside the Depth grammar ("0" | "1" | "infinity")
+		for _, d := range BadDepths(full) {
+			add2(davtree.Req{Method: "PROPFIND", Path: p, Depth: d})
+		}
 		for _, m := range []string{"FOO", "POST", "PATCH", "LOCK", "PROPPATCH"} {
 			add(davtree.Req{Method: m, Path: p})
 		}
@@ -112,6 +138,13 @@ func Requests(full bool) []davtree.Req {
 			add(davtree.Req{Method: "PROPFIND", Path: p, Depth: "0", TrailingSlash: true})
 			add(davtree.Req{Method: "DELETE", Path: p, TrailingSlash: true})
 			add(davtree.Req{Method: "MKCOL", Path: p, TrailingSlash: true})
+			// collections addressed the way clients address them: /a/
+			add2(davtree.Req{Method: "OPTIONS", Path: p, TrailingSlash: true})
+			add2(davtree.Req{Method: "GET", Path: p, TrailingSlash: true})
+			add2(davtree.Req{Method: "HEAD", Path: p, TrailingSlash: true})
+			add2(davtree.Req{Method: "PROPFIND", Path: p, Depth: "1", TrailingSlash: true})
+			add2(davtree.Req{Method: "PROPFIND", Path: p, Depth: "infinity", PropBody: "five", TrailingSlash: true})
+			add2(davtree.Req{Method: "PUT", Path: p, TrailingSlash: true, HasBody: true, Body: "c1"})
 		}
 	}
 	type hdr struct{ d, o string }
@@ -145,12 +178,63 @@ func Requests(full bool) []davtree.Req {
 				add(davtree.Req{Method: m, Path: s, Dest: d, DestForm: "slash"})
 				add(davtree.Req{Method: m, Path: s, Dest: d, DestForm: "relative"})
 			}
+			if s != "/" {
+				dests := []string{"/a", "/b", "/a/b", "/b/b"}
+				if full {
+					dests = UniversePaths
+				}
+				for _, d := range dests {
+					// the source collection addressed with a trailing slash
+					add2(davtree.Req{Method: m, Path: s, TrailingSlash: true, Dest: d, DestForm: "path"})
+					add2(davtree.Req{Method: m, Path: s, TrailingSlash: true, Dest: d, DestForm: "slash", Overwrite: "F"})
+					// spellings outside the Depth and Overwrite grammars
+					if !full && d != "/b" && d != "/a/b" {
+						continue
+					}
+					for _, bd := range BadDepths(full) {
+						add2(davtree.Req{Method: m, Path: s, Dest: d, DestForm: "path", Depth: bd})
+					}
+					for _, bo := range BadOverwrites(full) {
+						add2(davtree.Req{Method: m, Path: s, Dest: d, DestForm: "path", Overwrite: bo})
+					}
+					if full {
+						// header cross terms: non-canonical spellings with Depth / Overwrite present
+						for _, f := range []string{"dotseg", "dblslash", "updown"} {
+							add2(davtree.Req{Method: m, Path: s, PathForm: f, Dest: d, DestForm: "path", Depth: "0", Overwrite: "F"})
+							if d != "/" {
+								add2(davtree.Req{Method: m, Path: s, Dest: d, DestForm: f, Depth: "infinity", Overwrite: "F"})
+							}
+						}
+						for _, f := range []string{"url", "url-upper", "url-port", "netpath"} {
+							add2(davtree.Req{Method: m, Path: s, Dest: d, DestForm: f, Depth: "0", Overwrite: "F"})
+							add2(davtree.Req{Method: m, Path: s, Dest: d, DestForm: f, Overwrite: "T"})
+						}
+					}
+				}
+			}
 			add(davtree.Req{Method: m, Path: s, DestForm: "missing"})
 			add(davtree.Req{Method: m, Path: s, DestForm: "garbage"})
 			add(davtree.Req{Method: m, Path: s, DestForm: "nopath"})
 		}
 	}
-	return l
+	return l, l2
+}
+
+// BadDepths / BadOverwrites: header values outside the grammars
+// Depth = "0" | "1" | "infinity" and Overwrite = "T" | "F" that a lenient
+// parser (a number parser, a prefix test, a list split) would let through.
+func BadDepths(full bool) []string {
+	if full {
+		return []string{"-1", "00", "+1", "0, 1", "infinity,0", "01", "0x0", "1.0", "infinite", "0 1"}
+	}
+	return []string{"-1", "00", "0, 1"}
+}
+
+func BadOverwrites(full bool) []string {
+	if full {
+		return []string{"TF", "true", "0", "1", "T, F", "F, T", "yes", "FALSE", "T;q=1"}
+	}
+	return []string{"TF", "true", "F, T"}
 }
 
 // modelApplies filters requests whose spelling is outside the universe for
@@ -163,6 +247,9 @@ func modelApplies(t davtree.Tree, r davtree.Req) bool {
 		if t.Kind(r.Path) != davtree.Coll || t.Kind(r.Dest) == davtree.File {
 			return false
 		}
+	}
+	if r.Method == "PUT" && r.TrailingSlash {
+		return false // a file name spelt like a collection's: the statement is silent
 	}
 	if r.DestForm == "relative" && r.Dest == "/" {
 		return false // "" relative form of the root = missing header
@@ -179,8 +266,8 @@ func Explore(c *fw.Ctx, mon Monitors) {
 	}
 	defer e.Close()
 	trees := Trees()
-	reqs := Requests(c.Thorough())
-	c.Note("universe", fmt.Sprintf("%d trees x %d requests per tree (full header product: %v)", len(trees), len(reqs), c.Thorough()))
+	baseReqs, dealtReqs := requestLists(c.Thorough())
+	c.Note("universe", fmt.Sprintf("%d trees x (%d requests per tree + %d more requests, each tree a third of them (thorough: all)) (full header product: %v)", len(trees), len(baseReqs), len(dealtReqs), c.Thorough()))
 	// listings must describe each resource as the resource describes itself:
 	// a fixed tree mixing known and unknown media types, in every lexical order
 	if c.Shard == 0 || c.NShardsOr1() == 1 {
@@ -217,6 +304,13 @@ func Explore(c *fw.Ctx, mon Monitors) {
 				e.Probe("probe", t, p, "", false)
 			}
 		}
+		reqs := make([]davtree.Req, 0, len(baseReqs)+len(dealtReqs))
+		reqs = append(reqs, baseReqs...)
+		for j, r := range dealtReqs {
+			if c.Thorough() || (j+ti)%3 == 0 {
+				reqs = append(reqs, r)
+			}
+		}
 		for _, r := range reqs {
 			saved := e.Mon
 			if !modelApplies(t, r) {
@@ -232,6 +326,14 @@ func Explore(c *fw.Ctx, mon Monitors) {
 			}
 			if c.WantSample() && r.Method == "MOVE" && resp.Code == 204 {
 				c.Sample(map[string]interface{}{"tree": t.Shape(), "request": r, "status": resp.Code, "tree_after": post})
+			}
+		}
+		// the same mutating requests carrying header fields the model has no
+		// rule for: nothing for the model to judge, everything for the others
+		if mon.Unchanged || mon.Leak {
+			for _, r := range ExtraHeaderRequests(ti, c.Thorough()) {
+				e.RunOne("single-step", t, r)
+				c.Observe("extra_header_families", r.Method+" "+r.ExtraTag, 1)
 			}
 		}
 	}
@@ -386,7 +488,7 @@ func RandReq(r *rand.Rand, t davtree.Tree, names []string) davtree.Req {
 	case 10, 11, 12:
 		return davtree.Req{Method: "MKCOL", Path: p, TrailingSlash: t.Kind(p) != davtree.File && r.Intn(3) == 0}
 	case 13, 14:
-		return davtree.Req{Method: "PROPFIND", Path: p, Depth: []string{"", "0", "1", "infinity"}[r.Intn(4)], PropBody: []string{"", "five"}[r.Intn(2)],
+		return davtree.Req{Method: "PROPFIND", Path: p, Depth: []string{"", "0", "1", "infinity"}[r.Intn(4)], PropBody: randPropBody(r),
 			TrailingSlash: t.Kind(p) == davtree.Coll && r.Intn(3) == 0}
 	}
 	m := "COPY"
@@ -410,6 +512,37 @@ func RandReq(r *rand.Rand, t davtree.Tree, names []string) davtree.Req {
 		if m == "COPY" {
 			req.Depth = "0"
 		}
+	}
+	return req
+}
+
+func randPropBody(r *rand.Rand) string {
+	switch r.Intn(8) {
+	case 0, 1, 2:
+		return ""
+	case 3, 4:
+		return "five"
+	case 5:
+		return []string{"allprop", "propname"}[r.Intn(2)]
+	}
+	sets := PropSetNames()
+	return "names:" + sets[r.Intn(len(sets))]
+}
+
+// randExtra gives one mutating request in ten a header family the model has
+// no rule for.
+func randExtra(r *rand.Rand, req davtree.Req) davtree.Req {
+	switch req.Method {
+	case "PUT", "DELETE", "MKCOL", "COPY", "MOVE":
+	default:
+		return req
+	}
+	if r.Intn(10) != 0 {
+		return req
+	}
+	fams := ExtraHeaderFamilies(req.Body)
+	if q, ok := withExtra(req, fams[r.Intn(len(fams))]); ok {
+		return q
 	}
 	return req
 }
@@ -482,7 +615,19 @@ func Histories(c *fw.Ctx, mon Monitors, n, steps int) {
 					}
 				}
 			}
-			req := RandReq(r, t, names)
+			if (hi+s)%7 == 3 {
+				// the directory is edited behind the server's back the one way that
+				// leaves the resource tree as it is: a file gets another stored
+				// modification time
+				if files := t.Files(); len(files) > 0 {
+					f := files[(hi/7+s)%len(files)]
+					if cls, mt := mtimeFor(uint32(hi), fmt.Sprint(s)); cls != "now" {
+						os.Chtimes(filepath.Join(e.Root, filepath.FromSlash(f)), mt, mt)
+						c.Observe("histories", "files given another stored modification time", 1)
+					}
+				}
+			}
+			req := randExtra(r, RandReq(r, t, names))
 			trace = append(trace, req)
 			preShape := t.Shape()
 			hreq, err := BuildRequest(req)
@@ -496,8 +641,12 @@ func Histories(c *fw.Ctx, mon Monitors, n, steps int) {
 			before := findingCount(c)
 			e.Observe(fmt.Sprintf("history %d step %d", hi, s), t, req, resp, preShape, post)
 			c.JournalDone()
-			// advance the model
-			outs := davtree.Step(t, req)
+			// advance the model; a request with header fields the model has no
+			// rule for advances it like the plain request if that is what the
+			// server did (no verdict), and ends the history otherwise
+			plain := req
+			plain.Extra, plain.ExtraTag = nil, ""
+			outs := davtree.Step(t, plain)
 			var next davtree.Tree
 			for _, o := range outs {
 				if o.Accepts(resp.Code) && o.Tree.Shape() == post {
